@@ -17,7 +17,7 @@ RULE = (
     "non-trivial = at least one mutation succeeded and >=2 ops"
 )
 REQUIRED = ["ops_checked", "invariant_evals", "copies_checked", "raises_checked",
-            "generated_id_after_caller_id", "merged_from_networks_checked"]
+            "generated_id_after_caller_id", "merged_from_networks_checked", "sparse_read_histories", "ops_without_read"]
 ASSUMPTIONS = [
     "species labels follow the documented grammar (letters/digits/_ starting with a letter)",
     "a species kept with prune_orphans=False may legitimately disappear later when a reaction "
@@ -326,8 +326,10 @@ def apply_model(M, op):
     raise AssertionError(k)
 
 
-def run_sequence(ctx, ops):
-    """returns (problem, step) or (None, None)."""
+def run_sequence(ctx, ops, observe=None):
+    """returns (problem, step) or (None, None).  observe = None: the store is read and compared after every operation;
+    observe = set of steps: the store is read only at those steps (and at the end), so that several edits happen
+    between two reads (what a reader caches across edits is only visible this way)."""
     from synkit.CRN.Hypergraph.hypergraph import CRNHyperGraph
 
     H = CRNHyperGraph()
@@ -340,7 +342,8 @@ def run_sequence(ctx, ops):
         if op[0] == "copy":
             copies.append((H.copy(), M.clone()))
             continue
-        before = real_state(H)
+        look = observe is None or step in observe
+        before = real_state(H) if look else None
         ambiguous = False
         if op[0] in ("remove_species", "assign_mol"):
             s = op[1]
@@ -362,7 +365,7 @@ def run_sequence(ctx, ops):
             mr = apply_model(M, op)
         ctx.count("ops_checked")
         ctx.count("op/" + op[0])
-        if rr[0] == "raise":
+        if rr[0] == "raise" and look:
             ctx.count("raises_checked")
             try:
                 after = real_state(H)
@@ -388,9 +391,16 @@ def run_sequence(ctx, ops):
             mutated += 1
         if ambiguous and rr[0] != mr[0]:
             return (None, "ambiguous-skip")
+        if not look:
+            ctx.count("ops_without_read")
+            continue
         p = compare(H, M)
         if p:
-            return (f"after {op}: {p}", step)
+            return (f"after {op}" + ("" if observe is None else f" (store last read {step - max([x for x in observe if x < step], default=-1)} operations earlier)") + f": {p}", step)
+    if observe is not None:
+        p = compare(H, M)
+        if p:
+            return (f"at the end of the history (reads only at steps {sorted(observe)}): {p}", len(ops))
     # the networks that were merged in stay independent objects: edits of the store did not reach them, and editing
     # them now does not reach the store
     for O, snap in MERGED_FROM:
@@ -435,7 +445,18 @@ def check_sequence(ctx, ops, tag):
              sample={"space": tag, "ops": ops} if ctx.rng.random() < 0.001 or ctx.evaluations < 2 else None)
     if prob:
         ctx.violation("store-vs-model", {"ops": ops}, prob)
-    elif len(_inv_fail) > n0:
+        del _inv_fail[:]
+        return
+    if len(ops) >= 3 and "copy" not in [o[0] for o in ops]:
+        # the same history once more, reading the store only now and then
+        obs = {i for i in range(len(ops)) if ctx.rng.random() < 0.3}
+        prob2, info2 = run_sequence(ctx, ops, observe=obs)
+        ctx.count("sparse_read_histories")
+        if info2 != "ambiguous-skip" and prob2:
+            ctx.violation("store-vs-model-sparse-reads", {"ops": ops, "observe": sorted(obs)}, prob2)
+            del _inv_fail[:]
+            return
+    if len(_inv_fail) > n0:
         ctx.violation("class-invariant", {"ops": ops}, _inv_fail[-1])
     del _inv_fail[:]
 
@@ -490,4 +511,10 @@ def replay(ctx, v):
     install()
     ops = [tuple(o) for o in v["witness"]["ops"]]
     ops = [tuple(x if not isinstance(x, list) else tuple(x) for x in o) for o in ops]
+    if "observe" in v["witness"]:
+        prob, _ = run_sequence(ctx, ops, observe=set(v["witness"]["observe"]))
+        ctx.case(("seq", tuple(ops)), nontrivial=True)
+        if prob:
+            ctx.violation("store-vs-model-sparse-reads", v["witness"], prob)
+        return
     check_sequence(ctx, ops, "replay")
